@@ -8,6 +8,9 @@
      Idx(v, w, i)         v = w[i]                  (constant index 0 / 1)
      Call(v, f, w)        v = f(w)     F1: return p     F2: return (p, p)     F3: return 1
      New(v, w)            v = K(w)     class K: a = 1.5;  def __init__(self, q): self.b = q
+     NewS(v, w)           v = S(w)     class S(K): pass            (everything inherited)
+     Make(v, c, w)        v = c.make(w)   c in {K, S};  in K:  @classmethod def make(cls, q): return cls(q)
+                          (an inherited classmethod called on the subclass binds cls to the SUBCLASS)
      Attr(v, w, n)        v = w.a | v = w.b
      If(v, w1, w2, taken) if <opaque>: v = w1  else: v = w2     (taken: which branch the run takes)
    Values are class tags with creation structure: [k, a] -- k the class, a the component tags
@@ -42,6 +45,8 @@ Stmts ==
   \cup {S("Idx", v, w, "x", i, 1, "a", "int", 1) : v \in Vars, w \in Vars, i \in 1..2}
   \cup {S("Call", v, w, "x", 1, f, "a", "int", 1) : v \in Vars, f \in 1..3, w \in Vars}
   \cup {S("New", v, w, "x", 1, 1, "a", "int", 1) : v \in Vars, w \in Vars}
+  \cup {S("NewS", v, w, "x", 1, 1, "a", "int", 1) : v \in Vars, w \in Vars}
+  \cup {S("Make", v, w, "x", 1, f, "a", "int", 1) : v \in Vars, w \in Vars, f \in 1..2}      \* f = 1: K.make, f = 2: S.make
   \cup {S("Attr", v, w, "x", 1, 1, n, "int", 1) : v \in Vars, w \in Vars, n \in {"a", "b"}}
   \cup {S("If", v, w, w2, 1, 1, "a", "int", tk) : v \in Vars, w \in Vars, w2 \in Vars, tk \in 1..2}
 
@@ -65,7 +70,9 @@ CRhs(s, env, taken) ==   \* tag produced by the right-hand side, or Unbound for 
     [] s.op = "Call" -> IF g(s.w) = Unbound THEN Unbound
                         ELSE IF s.f = 1 THEN g(s.w) ELSE IF s.f = 2 THEN T("tuple", <<g(s.w), g(s.w)>>) ELSE Int
     [] s.op = "New" -> IF g(s.w) = Unbound THEN Unbound ELSE T("K", <<g(s.w)>>)
-    [] s.op = "Attr" -> IF g(s.w).k = "K" THEN (IF s.n = "a" THEN Flt ELSE g(s.w).a[1]) ELSE Unbound
+    [] s.op = "NewS" -> IF g(s.w) = Unbound THEN Unbound ELSE T("S", <<g(s.w)>>)
+    [] s.op = "Make" -> IF g(s.w) = Unbound THEN Unbound ELSE T(IF s.f = 1 THEN "K" ELSE "S", <<g(s.w)>>)
+    [] s.op = "Attr" -> IF g(s.w).k \in {"K", "S"} THEN (IF s.n = "a" THEN Flt ELSE g(s.w).a[1]) ELSE Unbound
     [] s.op = "If" -> IF taken = 1 THEN g(s.w) ELSE g(s.w2)
 
 RECURSIVE CRun(_, _, _)
@@ -90,8 +97,10 @@ ARhs(s, env) ==
     [] s.op = "Idx" -> UNION {t.a[s.i] : t \in {u \in g(s.w) : u.k = "tuple"}}
     [] s.op = "Call" -> IF s.f = 1 THEN g(s.w) ELSE IF s.f = 2 THEN {T("tuple", <<g(s.w), g(s.w)>>)} ELSE AInt
     [] s.op = "New" -> {T("K", <<g(s.w)>>)}
-    [] s.op = "Attr" -> IF s.n = "a" THEN (IF \E t \in g(s.w) : t.k = "K" THEN AFlt ELSE {})
-                        ELSE UNION {t.a[1] : t \in {u \in g(s.w) : u.k = "K"}}
+    [] s.op = "NewS" -> {T("S", <<g(s.w)>>)}
+    [] s.op = "Make" -> {T(IF s.f = 1 THEN "K" ELSE "S", <<g(s.w)>>)}      \* cls is the class the method was looked up on
+    [] s.op = "Attr" -> IF s.n = "a" THEN (IF \E t \in g(s.w) : t.k \in {"K", "S"} THEN AFlt ELSE {})
+                        ELSE UNION {t.a[1] : t \in {u \in g(s.w) : u.k \in {"K", "S"}}}
     \* Deviation of the code, modelled as it is (IfElseKeepsEarlier): both branches of an undecidable
     \* if/else are UNSURE for the flow analysis, so the search goes on to the definition before the `if`
     \* although it cannot reach the use any more.
@@ -126,7 +135,8 @@ Precise == \A v \in Vars \ Tainted : Cardinality(ReachKinds(v)) = 1 => Kinds(Abs
 
 RECURSIVE SumSeq(_)
 Code(s) == (IF s.v = "x" THEN 1 ELSE 2) + 3 * (CASE s.op = "Lit" -> 1 [] s.op = "Var" -> 2 [] s.op = "Tup" -> 3
-             [] s.op = "Idx" -> 4 [] s.op = "Call" -> 5 [] s.op = "New" -> 6 [] s.op = "Attr" -> 7 [] s.op = "If" -> 8)
+             [] s.op = "Idx" -> 4 [] s.op = "Call" -> 5 [] s.op = "New" -> 6 [] s.op = "Attr" -> 7 [] s.op = "If" -> 8
+             [] s.op = "NewS" -> 9 [] s.op = "Make" -> 10)
 SumSeq(p) == IF p = <<>> THEN 0 ELSE (Code(Head(p)) + 31 * SumSeq(Tail(p))) % 1000003
 Emit == (prog # <<>> /\ SumSeq(prog) % EmitMod = EmitRem) =>
           LET c == Concrete(prog) a == Abstract(prog) IN
